@@ -129,6 +129,7 @@ class LogicBlock(SystemWideDevice, ModeDevice):
     def device_removed_from_mode(self, mode: Mode):
         """Unset internal state to prevent leakage."""
         super().device_removed_from_mode(mode)
+        self.delay.remove("timeout")
         self._state = None
 
     @property
